@@ -320,3 +320,49 @@ Definition cfg_terminals (c : lexcfg) : list sym :=
   let t1 := filter (fun g => match assoc (c_syn c) g with Some _ => false | None => true end) groups in
   let t2 := fold_left (fun acc kv => add_set (snd kv) acc) (c_syn c) (fold_left (fun acc g => add_set g acc) t1 []) in
   fold_left (fun acc e => add_set (snd (snd e)) acc) (c_kw c) t2.
+
+(* ------------------------------------------------------------------ operations of the public tree API *)
+(* TElement.clone (519-525): every element, leaf or not, is rebuilt with
+   start_pos=self.start_pos, end_pos=self.end_pos passed explicitly (the constructor
+   derives nothing from the children), the children are cloned recursively *)
+Fixpoint clone (t : tree) : tree :=
+  match t with
+  | Leaf n v sp => Leaf n v sp
+  | Node n ch sp => Node n (map clone ch) sp
+  end.
+
+(* LLParser._process_seq_telement (1987-2014), run on the completed element of a ProdSequence
+   symbol S -> (S__ELEMENT, S) | () before it is handed to its parent: the value becomes
+   [the only child of the S__ELEMENT] + the (already flattened) value of the tail element;
+   the positions, computed when the element was created, are left alone.  As the elements are
+   completed bottom-up this is a function of the finished tree.  (An element that has not the
+   shape the assertions of the method demand is left as it is.) *)
+Fixpoint flatten_seq (seqs : list sym) (t : tree) : tree :=
+  match t with
+  | Leaf _ _ _ => t
+  | Node n ch sp =>
+      let ch' := map (flatten_seq seqs) ch in
+      if mem n seqs then
+        match ch' with
+        | [Node _ [x] _; Node _ tl _] => Node n (x :: tl) sp
+        | _ => Node n ch' sp
+        end
+      else Node n ch' sp
+  end.
+
+(* TElement.find_all(exclude_root=False) / iter_all: the elements in depth-first order, an
+   element before its descendants *)
+Fixpoint preorder (t : tree) : list tree :=
+  t :: match t with
+       | Leaf _ _ _ => []
+       | Node _ ch _ => flat_map preorder ch
+       end.
+
+(* StdCleanuper._cleanup, ListProds/MapProds.transform_t_elem (2506-2585, 1054-1124, 1281-1344)
+   work in place: they re-assign name, value and _is_leaf of elements of the raw tree, never
+   start_pos/end_pos, and create no element.  Hence every element reachable in the cleaned tree
+   is an element of the raw tree with the positions it had there.  WHICH elements survive (and
+   under which name) is the subject of C05; here the surviving elements are given by their
+   depth-first indices in the raw tree. *)
+Definition surviving (t : tree) (ks : list nat) : list (option tree) :=
+  map (nth_error (preorder t)) ks.
